@@ -43,6 +43,9 @@ func (c03) Cases(tier string, race bool) int {
 	return 100000
 }
 
+// c03textK: the text key under the global key prefix of the running case.
+var c03textK = "#text"
+
 var c03keys = []string{"a", "b", "c", "d", "e1", "x-y", "Z_z", "ns:q", "doc", "element", "_seq", "_", "object"}
 var c03strs = []string{"", "t", "hello", " pad ", "<&>\"'", "&amp;", "&lt;", "1", "true", "é世", "a]]>b", "x\ny", "<![CDATA[q]]>", "--", "</a>", `\u003c`, `a\u0026b\u003e`, "100%", "\ufeffx", "x\ufeff", `\u2028`, "&#65;", "&#x41;", "&amp;#65;", "x&#10;y", "&quot;", "&apos;q"}
 
@@ -121,7 +124,7 @@ func c03gen(r *rand.Rand, depth int, st *c03stats) interface{} {
 			if v == nil {
 				st.nullText = true
 			}
-			m["#text"] = v
+			m[c03textK] = v
 			st.text = true
 		}
 		return m
@@ -201,7 +204,7 @@ func refEls(tag string, v interface{}) []*xt.Node {
 		text := ""
 		for _, k := range sortedKeys(t) {
 			switch {
-			case k == "#text":
+			case k == c03textK:
 				text = scalarText(t[k])
 			case strings.HasPrefix(k, "-") && len(k) > 1:
 				an := k[1:]
@@ -260,6 +263,13 @@ func (c03) Case(c *core.Ctx) {
 	var st c03stats
 	mxj.XMLEscapeChars(true)
 	defer ResetDefaults()
+	c03textK = "#text"
+	if r.Intn(8) == 0 {
+		// another global key prefix: the text key is then spelled with it (and sorts elsewhere among the sub-element tags)
+		mxj.SetGlobalKeyMapPrefix("_")
+		c03textK = "_text"
+		c.Count("option:key-prefix-underscore")
+	}
 	if r.Intn(6) == 0 {
 		// the other spelling of empty elements (<a></a> instead of <a/>): the same data, a well-formed document
 		mxj.XmlGoEmptyElemSyntax()
@@ -372,7 +382,7 @@ func (c03) Case(c *core.Ctx) {
 				var els []*xt.Node
 				if em, ok := e.(map[string]interface{}); ok && len(em) == 1 {
 					for k, vv := range em {
-						if strings.HasPrefix(k, "-") || k == "#text" {
+						if strings.HasPrefix(k, "-") || k == c03textK {
 							// scoping decision: a single-key map that supplies the tag has an element-name key
 							c.Count("skipped:outside-domain")
 							return
@@ -422,7 +432,9 @@ func (c03) Case(c *core.Ctx) {
 		c.NonTrivial(vfp, rootForm)
 	}
 	wantCanon := canonTree(want)
-	wantDecode := jv.Fp(DefaultCfg().RefDecode(want))
+	dcfg := DefaultCfg()
+	dcfg.KeyPrefix = strings.TrimSuffix(c03textK, "text")
+	wantDecode := jv.Fp(dcfg.RefDecode(want))
 	if c.WantSample() && jv.Depth(value) >= 2 && len(vfp) < 250 {
 		c.Sample(core.D{"value": vfp, "root": rootForm, "expected_tree": want.String()})
 	}
